@@ -7,8 +7,8 @@ RULE = ('tmp cases: one lifetime of a sorter in a fresh directory that already h
         'size / threads / compression as in C01, n input items, exit in {returned after k items consumed, panic in the '
         'input iterator at item k, panic in the comparator at call k}, drop order {iterator first, sorter first}, directory '
         'given explicitly (TMPDIR then points elsewhere and is watched too), through TMPDIR, or naming a directory that does not exist (build must fail and create nothing); the builder calls are issued in a random order; recursive listings are taken before build, after build, inside the input '
-        'iterator, after sort_by, after partial consumption, between the two drops and at the end; the extracted oracle '
-        'tmp_ok judges them (everything created lives under one new top-level directory with no visible children; the final '
+        'iterator, after sort_by, after partial consumption, between the two drops and at the end, together with the files the process holds open under the scratch root (/proc/self/fd: unlinked chunk files are invisible to listings); a few lifetimes spill a chunk above 1 MiB; the extracted oracle '
+        'tmp_ok / tmp_open_ok judge them (every open file lives under the configured directory; everything created lives under one new top-level directory with no visible children; the final '
         'listing equals the initial one); non-trivial = at least 2 chunks were spilled; distinct by case text')
 UNIQUE_NOTE = 'tmp_restored / tmp_confined on the abstract resource model; listings judged by tmp_ok'
 EXHAUSTIVE = {}
@@ -16,9 +16,11 @@ EXHAUSTIVE = {}
 
 def gen(rng, tier):
     n = 150 if tier == 'quick' else 3000
-    for _ in range(n):
+    for it in range(n):
         N = rng.choice([0, 1, 5, 12, 40])
-        cs = rng.choice([1, 2, 3, 7, 'default', 100])
+        if it % 60 == 7:
+            N = 200000          # a spilled chunk above 1 MiB (anything that treats big chunks differently)
+        cs = rng.choice([1, 2, 3, 7, 'default', 100]) if N < 1000 else rng.choice(['default', 150000])
         threads = rng.choice([1, 2, 'default'])
         comp = rng.choice(['none', 'none', 1, 4])
         steps = [['dir']]
@@ -27,10 +29,10 @@ def gen(rng, tier):
         if comp != 'none': steps.append(['comp', comp])
         rng.shuffle(steps)                      # builder calls in any order
         exit_ = rng.choice(['returned', 'returned', 'returned', 'panic_input', 'panic_cmp'])
-        k = rng.randint(0, max(1, N))
+        k = rng.randint(0, max(1, min(N, 50)))
         order = rng.choice(['iter_first', 'sorter_first'])
         where = rng.choice(['dir', 'dir', 'dir', 'dir', 'env', 'missing'])
-        chunks = 0 if cs == 'default' else -(-N // cs)
+        chunks = (1 if N else 0) if cs == 'default' else -(-N // cs)
         yield Case(sx.dump(['tmp', ['steps'] + steps, N, exit_, k, order, where]), chunks >= 2, exit_ + '-' + where)
 
 
@@ -46,9 +48,9 @@ def oracle_line(case, impl, model, bad):
     try:
         o = sx.parse(impl)
         d = {x[0]: x for x in o if isinstance(x, list)}
-        return sx.dump(['tmpchk', d['cfg'][1], d['before'], d['during'], d['after']])
+        return sx.dump(['tmpchk', d['cfg'][1], d['before'], d['during'], d['after'], d['opens']])
     except Exception:
-        return '(tmpchk 63 (before 61) (during) (after))'     # malformed / panicked harness output: never accepted
+        return '(tmpchk 63 (before 61) (during) (after) (opens))'     # malformed / panicked harness output: never accepted
 
 
 def classify(case, impl, model):
